@@ -13,6 +13,7 @@ type Parser struct {
 	didEndStatement bool
 	inFunction      bool
 	inLoop          bool
+	lexErr          error
 }
 
 type parseRule struct {
@@ -104,9 +105,20 @@ func (p *Parser) error(pos int, msg string) SyntaxError {
 	}
 }
 
+// remember the first error the lexer reports. not every caller of advance and
+// consume looks at the error it gets back, and after a dropped lexer error the
+// parser would go on to complain about some other token. Parse and
+// ParseExpression report this error in preference to their own
+func (p *Parser) lexerError(err error) {
+	if p.lexErr == nil {
+		p.lexErr = err
+	}
+}
+
 func (p *Parser) advance() (Token, error) {
 	t, err := p.lexer.Next()
 	if err != nil {
+		p.lexerError(err)
 		return t, err
 	}
 	p.previous = p.current
@@ -463,6 +475,7 @@ func literal(p *Parser) (Expr, error) {
 func regex(p *Parser) (Expr, error) {
 	token, err := p.lexer.Regex()
 	if err != nil {
+		p.lexerError(err)
 		return nil, err
 	}
 	if token.Tag != Regex {
@@ -974,6 +987,14 @@ func (p *Parser) parseFunction() (ExprFunction, error) {
 }
 
 func (p *Parser) ParseExpression() (Expr, error) {
+	expr, err := p.parseExpression()
+	if p.lexErr != nil {
+		return nil, p.lexErr
+	}
+	return expr, err
+}
+
+func (p *Parser) parseExpression() (Expr, error) {
 	if _, err := p.advance(); err != nil {
 		return nil, err
 	}
@@ -988,6 +1009,14 @@ func (p *Parser) ParseExpression() (Expr, error) {
 }
 
 func (p *Parser) Parse() (Program, error) {
+	prog, err := p.parseProgram()
+	if p.lexErr != nil {
+		return Program{}, p.lexErr
+	}
+	return prog, err
+}
+
+func (p *Parser) parseProgram() (Program, error) {
 	prog := Program{}
 	rules := make([]Rule, 0)
 	functions := make([]ExprFunction, 0)
